@@ -2,7 +2,7 @@
 Model of the token ring and the cluster topology types (C04; reused by C05 / C12).
 
 * `Node`            ← the fields of `cluster::node::Node` that replica placement reads: `host_id` (equality and
-                      hashing of `Node` are by `host_id` only, `node.rs:318-330`), `datacenter`, `rack`.
+                      hashing of `Node` are by `host_id` only, `cluster/node.rs` `impl PartialEq/Hash for Node`), `datacenter`, `rack`.
                       Datacenter and rack names are abstracted to numbers (`dc3` ↔ `some 3`, no name ↔ `none`);
                       the code only ever compares them for equality.
 * `Ring α`          ← `TokenRing<ElemT>` (`routing/locator/token_ring.rs`): a `Vec<(Token, ElemT)>` kept sorted by
@@ -20,7 +20,11 @@ Model of the token ring and the cluster topology types (C04; reused by C05 / C12
 -/
 namespace ScyllaVerif.Ring
 
-/-- A cluster node as seen by replica placement.  `id` stands for `host_id`. -/
+/-- A cluster node as seen by replica placement.  `id` stands for `host_id`.
+Equality here is structural while the Rust `Node` is compared by `host_id` only: the two coincide on the rings
+the driver can build, where entries with equal host id are the same `Arc<Node>` (`calculate_new_topology`
+creates one node per peer; both case-line parsers reject repeated ids).  This is an assumption of C04
+(C05 carries it as `WF.distinctIds`). -/
 structure Node where
   id : Nat
   dc : Option Nat
